@@ -57,6 +57,7 @@ class Contract:
     axioms: Callable | None = None  # (S, a) -> list of *definitional* axioms for spec arrays (see S.defarray)
     static: bool = False  # staticmethod: a call through an instance or the class does not pass the receiver
     cases: dict[str, Callable] = field(default_factory=dict)  # proof by cases: name -> (S,a)->Bool (must be exhaustive)
+    vararg: str | None = None  # the parameter that is the function's *vararg (receives the tuple of extra positionals)
     star_call: bool = False  # contract of a *stored callable* `rec.field(*args, **kwargs)`: params = (rec, args, kwargs),
     #                          the starred positional and keyword collections are passed as opaque wholes
 
@@ -190,6 +191,8 @@ class Engine:
         argnames = [a.arg for a in node.args.posonlyargs + node.args.args + node.args.kwonlyargs]
         if node.args.vararg:
             argnames.append(node.args.vararg.arg)
+        if (node.args.vararg.arg if node.args.vararg else None) != c.vararg:
+            raise Unsupported(f"the contract's vararg ({c.vararg}) is not the signature's", node)
         for p in argnames:
             if p not in c.params:
                 raise Unsupported(f"parameter {p} has no sort in the contract", node)
@@ -2010,7 +2013,17 @@ class Engine:
             if first in c.modifies:
                 self.assign(f.value, self._post_vals[first], st, node, writeback=True)
             return r
-        args = [self.eval(a, st) for a in node.args]
+        starred = None
+        if node.args and isinstance(node.args[-1], ast.Starred) and isinstance(recv.ty, TRec):
+            # obj.m(a, *xs): allowed when the callee's contract declares the parameter at that position as its `*vararg`
+            # (checked against the callee's signature where that contract is verified): xs is what the vararg receives
+            c_ = self.registry.get(f"{recv.ty.name}.{name}")
+            pos = len(node.args) - 1 + 1  # (+1: the receiver)
+            if c_ is not None and c_.vararg is not None and list(c_.params).index(c_.vararg) == pos:
+                starred = self.eval(node.args[-1].value, st)
+        args = [self.eval(a, st) for a in (node.args[:-1] if starred is not None else node.args)]
+        if starred is not None:
+            args.append(starred)
         kw = self._kwargs(node, st)
         L = node.lineno
         if isinstance(recv.ty, TRec):
